@@ -133,7 +133,7 @@ def Greedy.addAll (shortCircuit : Bool) (c : Cfg α) (best : Option α) (xs : Li
       (r.1, acc.2 || r.2)) (best, false)
 
 /-- what `/repo/rosomaxa/src/population/greedy.rs::add_all` does today (checked by the correspondence run) -/
-def Greedy.repoShortCircuits : Bool := true
+def Greedy.repoShortCircuits : Bool := false
 
 /-- `std::iter::repeat_n(best_known, selection_size)` -/
 def Greedy.select (c : Cfg α) (best : Option α) : List α :=
